@@ -85,6 +85,16 @@ CHECKS.update({
         note="", ref="5 (C20)", technique="TLA+ model checking + trace validation (TLC)"),
 })
 
+CHECKS.update({
+    "C13": dict(
+        text="(1) TLC model checking of spec/NodeIds.tla: every interleaving of the atomic steps (one label per atomic operation of ConcurrentNodeIds::next) of 2 requesters x up to 3 requests (thorough: 3 x 3) over every set of used ids in 0..5, invariant Unique, "
+             "liveness AllDone; the load-then-store variant is refuted (sensitivity). (2) schedules -> code: with hook H1 every atomic operation of the real next() is a yield point; a token-passing scheduler enumerates depth-first ALL interleavings of real threads for "
+             "the small configurations (2x1, 2x2, 2+1, 3x1 requests, 8 shapes of the recyclable set) and samples larger ones; each complete schedule is one trace line checked by TLC against NodeIdsOps.tla (TraceIds.tla): returned ids pairwise distinct and not in use (property), "
+             "every step's operation and the generator's four state words equal the spec's Step function (conformance). (3) builds in rayon pools of 2..16 threads on histories with 8-20 trees and many bucket creations next to single-item children, validated by TraceMain.tla with the C01 conjuncts.",
+        note="Relaxed memory orderings are not modelled (sequentially consistent interleavings of the atomic operations only); rayon's own scheduling is sampled, not enumerated.",
+        ref="5 (C13)", technique="TLA+ model checking + schedule enumeration on the real code through a yield-point hook, validated by TLC"),
+})
+
 REASONS_NOT_YET = "check not built yet (work in progress; DESIGN.md section 9 gives the order of work)"
 
 
@@ -106,7 +116,7 @@ def main():
     na = [dict(property_id=p, reason=NA.get(p, REASONS_NOT_YET)) for p in ALL if p not in CHECKS]
     m = dict(
         version=1,
-        setup_cmd="cd /verif/harness && cargo build --release 2>&1 | tail -3 && cd /verif/spec && for m in Forest Store Search Arroy TraceMain; do tla-sany $m.tla > /dev/null || exit 1; done",
+        setup_cmd="cd /verif/harness && cargo build --release 2>&1 | tail -3 && cd /verif/spec && for m in Forest Store Search Arroy TraceMain NodeIds TraceIds; do tla-sany $m.tla > /dev/null || exit 1; done",
         hooks=dict(
             guard="--cfg arroy_verif",
             enable="rustflags = [\"--cfg\", \"arroy_verif\", \"--check-cfg\", \"cfg(arroy_verif)\"] in /verif/harness/.cargo/config.toml; the harness depends on /repo by path, so every check rebuilds /repo's working tree with the hooks on",
